@@ -105,7 +105,14 @@ def gather():
     t["STRING_ENCODINGS"] = list(_lit(_const_assign(enc, "_supported_encodings", "StringDataEncoding")))
     seqf = next(n for n in pk.body if isinstance(n, ast.ClassDef) and n.name == "SequenceFlags")
     t["SEQFLAGS"] = [(n.targets[0].id, _lit(n.value)) for n in seqf.body if isinstance(n, ast.Assign)]
-    # live class table for the five value classes (C20): owner of each special method
+    # live class table for the five value classes (C20): MRO and the special names each library class defines itself
+    from space_packet_parser import common
+    skip = {"__module__", "__doc__", "__dict__", "__weakref__", "__qualname__", "__firstlineno__", "__static_attributes__",
+            "__annotations__", "__abstractmethods__", "__orig_bases__", "__parameters__", "__slots__"}
+    classes = [common._Parameter, common.BinaryParameter, common.BoolParameter, common.FloatParameter, common.IntParameter,
+               common.StrParameter]
+    t["CLASS_MRO"] = [(c.__name__, [k.__name__ for k in c.__mro__]) for c in classes]
+    t["CLASS_OWNED"] = [(c.__name__, sorted(n for n in c.__dict__ if n.startswith("__") and n not in skip)) for c in classes]
     return t
 
 
@@ -127,6 +134,10 @@ def emit(t):
     lines.append("Definition g_OPERATORS : list (string * string) := [" + "; ".join(f"({_s(a)}, {_s(b)})" for a, b in t["OPERATORS"]) + "].")
     lines.append("Definition g_STRING_ENCODINGS : list string := [" + "; ".join(_s(a) for a in t["STRING_ENCODINGS"]) + "].")
     lines.append("Definition g_SEQFLAGS : list (string * Z) := [" + "; ".join(f"({_s(a)}, {b})" for a, b in t["SEQFLAGS"]) + "].")
+    lines.append("Definition g_CLASS_MRO : list (string * list string) := [" + "; ".join(
+        f"({_s(c)}, [" + "; ".join(_s(k) for k in m) + "])" for c, m in t["CLASS_MRO"]) + "].")
+    lines.append("Definition g_CLASS_OWNED : list (string * list string) := [" + "; ".join(
+        f"({_s(c)}, [" + "; ".join(_s(k) for k in m) + "])" for c, m in t["CLASS_OWNED"]) + "].")
     return "\n".join(lines) + "\n"
 
 
